@@ -48,7 +48,8 @@ def parseColData (j : Json) : Except String (List (Nat × List Cell)) := do
 def parseCfg (j : Json) : Except String Cfg := do
   let b (k : String) : Except String Bool := match j.getObjVal? k with | .ok v => v.getBool? | .error _ => pure false
   pure { dedupIn := ← b "dedupIn", notinKey := ← b "notinKey", localOp := ← b "localOp", guardEmpty := ← b "guardEmpty",
-         dedupIdx := ← b "dedupIdx", missingLe := ← b "missingLe", missingGe := ← b "missingGe", matchEmpty := ← b "matchEmpty", dictLen := ← b "dictLen" }
+         dedupIdx := ← b "dedupIdx", missingLe := ← b "missingLe", missingGe := ← b "missingGe", matchEmpty := ← b "matchEmpty", dictLen := ← b "dictLen",
+         resortInsert := ← b "resortInsert", bisectFallback := ← b "bisectFallback", notinSentinel := ← b "notinSentinel", matchPerCell := ← b "matchPerCell" }
 
 def parseInit (j : Json) : Except String Init := do
   match (← str (← field j "kind")) with
@@ -178,6 +179,7 @@ def specInfo (cfg : Cfg) (ts : List (Option Table)) (op : TOp) : Json :=
       match t.rows with
       | .ok R =>
         obj [("hyp", Json.bool (whereWF cfg t pos kws)),
+             ("hyp2", Json.bool (invB t && whereOK cfg t pos kws)),
              ("match", (match kws with
                | [kw] => (match (condOf pos kw).test with
                  | .cmp .mtch (.scalar v) =>
@@ -193,14 +195,18 @@ def specInfo (cfg : Cfg) (ts : List (Option Table)) (op : TOp) : Json :=
     match (ts[i]?).bind id with
     | some t =>
       match t.rows with
-      | .ok R => obj [("ihyp", Json.bool (insertWF cfg t d)), ("columns", ofList ofNat (insertS t.columns R d).1),
-                      ("rows", rowsToJson (insertS t.columns R d).2)]
+      | .ok R => obj [("ihyp", Json.bool (insertWF cfg t d)),
+                      ("ihyp2", Json.bool (cfg.resortInsert && invB t && insertOK cfg t d)),
+                      ("inv_after", Json.bool (match t.insert cfg d with | .ok t' => invB t' | .error _ => false)),
+                      ("exact", Json.bool (!cfg.resortInsert || t.indexes.isEmpty)),
+                      ("columns", ofList ofNat (insertSpec cfg t.columns t.indexes R d).1),
+                      ("rows", rowsToJson (insertSpec cfg t.columns t.indexes R d).2)]
       | .error _ => Json.null
     | Option.none => Json.null
   | .index i cols =>
     match (ts[i]?).bind id with
     | some t =>
-      let hyp := indexWF cfg t cols
+      let hyp := indexWF cfg t cols || (invB t && indexOK cfg t cols)
       match t.rows, (match t.index cfg cols with | .ok t' => t'.rows | .error e => .error e) with
       | .ok R, .ok R' =>
         let ks := idxPositions t.columns (effIndex cfg t cols)
@@ -245,8 +251,10 @@ def absToJson (a : AbsT) : Json :=
 def linearInfo (cfg : Cfg) (init : Init) (ops : List TOp) : Json :=
   let lin := linearOf ops 0 1
   obj [("n", ofNat lin.1.length), ("cur", ofNat lin.2), ("wfl", Json.bool (WFL cfg init.table lin.1)),
+       ("okl", Json.bool (cfg.resortInsert && invB init.table && OKL cfg init.table lin.1)),
+       ("inv_end", Json.bool (match runL cfg init.table lin.1 with | .ok t => invB t | .error _ => false)),
        ("model", match runL cfg init.table lin.1 with | .ok t => absToJson t.abs | .error e => obj [("err", Json.str (errName e))]),
-       ("spec", match runLS init.table.abs lin.1 with | .ok a => absToJson a | .error e => obj [("err", Json.str (errName e))])]
+       ("spec", match runLS cfg init.table.abs lin.1 with | .ok a => absToJson a | .error e => obj [("err", Json.str (errName e))])]
 
 /-- request `{"cfg":{…}, "init":…, "ops":[…]}` → `{"model":[obs…], "spec":[…]}` (first entry of
 `model`: the initial table; `spec` has one entry per operation) -/
